@@ -10,7 +10,7 @@ Open Scope N_scope.
 Record qobs := QO { o_q : qd; o_res : outcome }.
 
 Record c13case := C13 {
-  c_muts : list (mutation val);      (* attempted mutations, in order (failing ones included) *)
+  c_muts : list step;                (* attempted mutations and Init calls, in order (failing ones included) *)
   g_stored : vstore val;             (* Store.Get of every id after the history *)
   c_vprefix : bytes;                 (* what the store puts before an id to form the value key ("v." or nothing) *)
   g_keys : kdb;                      (* EVERY database key after Flush, iteration order: index entries and
@@ -23,11 +23,16 @@ Record c13case := C13 {
 (* the whole key space of the database: the index entries and one value key per stored value *)
 Definition with_value_keys (vprefix : bytes) (st : vstore val) (d : kdb) : kdb :=
   fold_left (fun d p => db_set (vprefix ++ fst p) d) st d.
+(* an initialised store also holds the marker key "$<prefix>init" *)
+Definition with_marker (inited : bool) (vprefix : bytes) (d : kdb) : kdb :=
+  if inited then db_set (36 :: vprefix ++ [105; 110; 105; 116]) d else d.
 
 (* field codes: 1 key space  2 a query result  3 stored values *)
 Definition check_case (c : c13case) : list N :=
-  let '(st, d0, _) := run_history idxs 0 (c_muts c) in
-  let d := fold_left (fun d k => db_set k d) (c_foreign c) (with_value_keys (c_vprefix c) st d0) in
+  let (ms, inited) := flatten_steps false (c_muts c) in
+  let '(st, d0, _) := run_history idxs 0 ms in
+  let d := fold_left (fun d k => db_set k d) (c_foreign c)
+                     (with_marker inited (c_vprefix c) (with_value_keys (c_vprefix c) st d0)) in
   (if list_eqb beq d (g_keys c) then [] else [1]) ++
   (if forallb (fun o => outcome_eqb (fetch_collection d (to_iq (o_q o))) (o_res o)) (g_queries c) then [] else [2]) ++
   (if store_eqb st (g_stored c) then [] else [3]).
@@ -40,7 +45,8 @@ Definition viol_case (c : c13case) : list N :=
      cases are correspondence-only ("index entry is invalid" error path) *)
   if negb (is_nil (c_foreign c)) then [] else
   (if forallb (fun o => outcome_eqb (spec_on (g_stored c) (o_q o)) (o_res o)) (g_queries c) then [] else [1]) ++
-  (if list_eqb beq (with_value_keys (c_vprefix c) (g_stored c) (keys_of_store (g_stored c))) (g_keys c) then [] else [2]).
+  (if list_eqb beq (with_marker (snd (flatten_steps false (c_muts c))) (c_vprefix c)
+                     (with_value_keys (c_vprefix c) (g_stored c) (keys_of_store (g_stored c)))) (g_keys c) then [] else [2]).
 
 Definition mismatches (cs : list c13case) : list (N * N) := run_idx check_case 0 cs.
 Definition violations (cs : list c13case) : list (N * N) := run_idx viol_case 0 cs.
